@@ -76,37 +76,34 @@ Definition format_bool (b : bool) : list N := if b then s_true else s_false.
 (* ---------- decimals ---------- *)
 Definition U8 := mk_ity false 8.
 
-(* first loop of DecimalParser::parse: digits before the point.  Result: (val, digits, rest after
-   the '.' or None when the iterator is exhausted) *)
-Fixpoint dec_lead (oc : bool) (t : ity) (val digits : Z) (bs : list N)
-  : outcome (Z * Z * option (list N)) :=
+(* DecimalParser::parse (cast/parse.rs after 7b11b6c5d).  `?` on a checked operation is Err (None);
+   the operations that are still the plain std ones (`%`, `/`, `T::zero().sub(val)`) keep their
+   panic outcome in the model. *)
+Definition push_digit (t : ity) (val : Z) (b : N) : outcome Z :=
+  obind (checked t (val * 10)) (fun v1 => checked t (v1 + digit_val b)).
+
+(* first loop: digits before the point.  Result: (val, seen_digit, rest after the '.' or None when
+   the iterator is exhausted) *)
+Fixpoint dec_lead (t : ity) (val : Z) (seen : bool) (bs : list N) : outcome (Z * bool * option (list N)) :=
   match bs with
-  | [] => Ok (val, digits, None)
+  | [] => Ok (val, seen, None)
   | b :: r =>
-      if is_digit b then
-        if (digits =? 0) && (b =? 48)%N then dec_lead oc t val digits r
-        else
-          obind (unchecked oc U8 (digits + 1)) (fun dg =>
-          obind (unchecked oc t (val * 10)) (fun v1 =>
-          obind (unchecked oc t (v1 + digit_val b)) (fun v2 =>
-          dec_lead oc t v2 dg r)))
-      else if (b =? 46)%N then Ok (val, digits, Some r)
+      if is_digit b then obind (push_digit t val b) (fun v => dec_lead t v true r)
+      else if (b =? 46)%N then Ok (val, seen, Some r)
       else Err
   end.
 
-(* second loop: digits after the point; digits beyond `scale` are skipped *)
-Fixpoint dec_frac (oc : bool) (t : ity) (scale : Z) (val digits decimals : Z) (bs : list N)
-  : outcome (Z * Z * Z) :=
+(* second loop: digits after the point; the first digit beyond the scale decides the rounding *)
+Fixpoint dec_frac (t : ity) (scale : Z) (val decimals : Z) (seen round_up seen_dropped : bool) (bs : list N)
+  : outcome (Z * Z * bool * bool) :=
   match bs with
-  | [] => Ok (val, digits, decimals)
+  | [] => Ok (val, decimals, seen, round_up)
   | b :: r =>
       if is_digit b then
-        if decimals =? scale then dec_frac oc t scale val digits decimals r
-        else
-          obind (unchecked oc U8 (digits + 1)) (fun dg =>
-          obind (unchecked oc t (val * 10)) (fun v1 =>
-          obind (unchecked oc t (v1 + digit_val b)) (fun v2 =>
-          dec_frac oc t scale v2 dg (decimals + 1) r)))
+        if (scale <=? 0) || (decimals =? scale) then
+          (if seen_dropped then dec_frac t scale val decimals true round_up true r
+           else dec_frac t scale val decimals true (53 <=? b)%N true r)
+        else obind (push_digit t val b) (fun v => dec_frac t scale v (decimals + 1) true round_up seen_dropped r)
       else Err
   end.
 
@@ -117,22 +114,27 @@ Definition parse_decimal (oc : bool) (d : dty) (precision scale : Z) (bs : list 
     | b :: r => if (b =? 45)%N then (true, r) else if (b =? 43)%N then (false, r) else (false, bs)
     | [] => (false, bs)
     end in
-  obind (dec_lead oc t 0 0 bs) (fun '(val, digits, rest) =>
+  obind (dec_lead t 0 false bs) (fun '(val, seen, rest) =>
   obind (match rest with
-         | Some r => dec_frac oc t scale val digits 0 r
-         | None => Ok (val, digits, 0)
-         end) (fun '(val, digits, decimals) =>
-  obind (if scale <? 0 then
-           obind (unchecked oc U8 (digits - Z.abs scale)) (fun dg =>
-           obind (pow_in oc t 10 (Z.abs_nat scale)) (fun pw =>
-           Ok (Z.quot val pw, dg)))
-         else Ok (val, digits)) (fun '(val, digits) =>
-  if precision <? digits then Err
+         | Some r => dec_frac t scale val 0 seen false false r
+         | None => Ok (val, 0, seen, false)
+         end) (fun '(val, decimals, seen, round_up) =>
+  if negb seen then Err
   else
-    obind (if decimals <? scale then
-             obind (pow_in oc t 10 (Z.to_nat (scale - decimals))) (fun pw => unchecked oc t (val * pw))
-           else Ok val) (fun val =>
-    if neg then unchecked oc t (0 - val) else Ok val)))).
+    obind (if scale <? 0 then
+             obind (checked_pow t 10 (Z.abs scale)) (fun div =>
+             if div =? 0 then Panic                                  (* `%` by zero *)
+             else
+               obind (checked t (Z.rem val div * 2)) (fun r2 =>
+               Ok (Z.quot val div, div <=? r2)))
+           else if decimals <? scale then
+             obind (checked_pow t 10 (scale - decimals)) (fun mul =>
+             obind (checked t (val * mul)) (fun v => Ok (v, round_up)))
+           else Ok (val, round_up)) (fun '(val, round_up) =>
+    obind (if round_up then checked t (val + 1) else Ok val) (fun val =>
+    (* if let Some(limit) = checked_pow(ten, precision) { if val >= limit { return None } } *)
+    if (match checked_pow t 10 precision with Ok limit => limit <=? val | _ => false end) then Err
+    else if neg then unchecked oc t (0 - val) else Ok val)))).
 
 (* DecimalFormatter::write *)
 Definition format_decimal (oc : bool) (d : dty) (scale : Z) (v : Z) : outcome (list N) :=
@@ -220,9 +222,14 @@ Definition format_year (y : Z) : list N :=
   if (0 <=? y) && (y <=? 9999) then lpad 4 48%N (format_uint y)
   else (if y <? 0 then 45%N else 43%N) :: lpad 4 48%N (format_uint (Z.abs y)).   (* {:+05} *)
 Definition format_date (days : Z) : option (list N) :=
-  if day_in_range days then
+  (* from_timestamp: days + 719163 must be an i32; from_num_days_from_ce_opt: checked_add(365), then
+     the year is range-checked (from_ordinal_and_flags) *)
+  let dce := days + 719163 in
+  if in_range I32 dce && in_range I32 (dce + 365) then
     let '(y, m, d) := civil_from_days days in
-    Some (format_year y ++ [45%N] ++ lpad 2 48%N (format_uint m) ++ [45%N] ++ lpad 2 48%N (format_uint d))
+    if (min_year <=? y) && (y <=? max_year) then
+      Some (format_year y ++ [45%N] ++ lpad 2 48%N (format_uint m) ++ [45%N] ++ lpad 2 48%N (format_uint d))
+    else None
   else None.
 
 (* ---------- intervals ---------- *)
@@ -352,6 +359,13 @@ Definition wellformed_int (bs : list N) : bool :=
               then negb (match r with [] => true | _ => false end) && forallb is_digit r
               else forallb is_digit bs
   end.
+(* value of a digit string *)
+Definition dval (a : Z) (l : list N) : Z := fold_left (fun a b => a * 10 + digit_val b) l a.
+Fixpoint split_point (bs : list N) : list N * option (list N) :=
+  match bs with
+  | [] => ([], None)
+  | b :: r => if (b =? 46)%N then ([], Some r) else let '(i, f) := split_point r in (b :: i, f)
+  end.
 (* a conforming decimal literal:  [+-]? digit* ( '.' digit* )?  with at least one digit *)
 Fixpoint count_digits (bs : list N) : nat :=
   match bs with [] => O | b :: r => if is_digit b then S (count_digits r) else count_digits r end.
@@ -366,3 +380,80 @@ Definition wellformed_decimal (bs : list N) : bool :=
               | b :: r => if ((b =? 43) || (b =? 45))%N then r else bs
               | [] => bs end in
   all_digits_or_one_point false body && negb (count_digits body =? 0)%nat.
+
+(* text -> DECIMAL(p,s): a well-formed literal (optional sign, digits, optional point and digits, at least one digit)
+   denotes N / 10^n (N the digits, n the number of fractional digits); the result is
+   round_half_away(N * 10^s / 10^n) when its magnitude is below 10^p, otherwise (and for every
+   other text) nothing *)
+Definition spec_parse_decimal (p s : Z) (bs : list N) : option Z :=
+  if wellformed_decimal bs then
+    let '(neg, body) := match bs with
+                        | b :: r => if (b =? 45)%N then (true, r) else if (b =? 43)%N then (false, r) else (false, bs)
+                        | [] => (false, bs) end in
+    let '(ip, fp) := split_point body in
+    let fp := match fp with Some f => f | None => [] end in
+    let d := rha_div (dval 0 (ip ++ fp) * 10 ^ s) (10 ^ Z.of_nat (length fp)) in
+    if d <? 10 ^ p then Some (if neg then - d else d) else None
+  else None.
+
+(* ---------- the parser before the repair 7b11b6c5d (kept for the witness lemmas) ---------- *)
+Module Old.
+(* first loop of DecimalParser::parse: digits before the point.  Result: (val, digits, rest after
+   the '.' or None when the iterator is exhausted) *)
+Fixpoint dec_lead (oc : bool) (t : ity) (val digits : Z) (bs : list N)
+  : outcome (Z * Z * option (list N)) :=
+  match bs with
+  | [] => Ok (val, digits, None)
+  | b :: r =>
+      if is_digit b then
+        if (digits =? 0) && (b =? 48)%N then dec_lead oc t val digits r
+        else
+          obind (unchecked oc U8 (digits + 1)) (fun dg =>
+          obind (unchecked oc t (val * 10)) (fun v1 =>
+          obind (unchecked oc t (v1 + digit_val b)) (fun v2 =>
+          dec_lead oc t v2 dg r)))
+      else if (b =? 46)%N then Ok (val, digits, Some r)
+      else Err
+  end.
+
+(* second loop: digits after the point; digits beyond `scale` are skipped *)
+Fixpoint dec_frac (oc : bool) (t : ity) (scale : Z) (val digits decimals : Z) (bs : list N)
+  : outcome (Z * Z * Z) :=
+  match bs with
+  | [] => Ok (val, digits, decimals)
+  | b :: r =>
+      if is_digit b then
+        if decimals =? scale then dec_frac oc t scale val digits decimals r
+        else
+          obind (unchecked oc U8 (digits + 1)) (fun dg =>
+          obind (unchecked oc t (val * 10)) (fun v1 =>
+          obind (unchecked oc t (v1 + digit_val b)) (fun v2 =>
+          dec_frac oc t scale v2 dg (decimals + 1) r)))
+      else Err
+  end.
+
+Definition parse_decimal (oc : bool) (d : dty) (precision scale : Z) (bs : list N) : outcome Z :=
+  let t := d_prim d in
+  let '(neg, bs) :=
+    match bs with
+    | b :: r => if (b =? 45)%N then (true, r) else if (b =? 43)%N then (false, r) else (false, bs)
+    | [] => (false, bs)
+    end in
+  obind (dec_lead oc t 0 0 bs) (fun '(val, digits, rest) =>
+  obind (match rest with
+         | Some r => dec_frac oc t scale val digits 0 r
+         | None => Ok (val, digits, 0)
+         end) (fun '(val, digits, decimals) =>
+  obind (if scale <? 0 then
+           obind (unchecked oc U8 (digits - Z.abs scale)) (fun dg =>
+           obind (pow_in oc t 10 (Z.abs_nat scale)) (fun pw =>
+           Ok (Z.quot val pw, dg)))
+         else Ok (val, digits)) (fun '(val, digits) =>
+  if precision <? digits then Err
+  else
+    obind (if decimals <? scale then
+             obind (pow_in oc t 10 (Z.to_nat (scale - decimals))) (fun pw => unchecked oc t (val * pw))
+           else Ok val) (fun val =>
+    if neg then unchecked oc t (0 - val) else Ok val)))).
+
+End Old.
